@@ -3,11 +3,13 @@
 package crypto
 
 import (
+	"bytes"
 	"crypto/rand"
 	"crypto/sha256"
 	"encoding/binary"
 	"fmt"
 	"io"
+	"math"
 	"sync"
 
 	"golang.org/x/crypto/chacha20poly1305"
@@ -165,21 +167,22 @@ func (s *SessionKey) Decrypt(ciphertext []byte) ([]byte, error) {
 	var nonce [NonceSize]byte
 	copy(nonce[:], ciphertext[:NonceSize])
 
-	// Verify nonce is in expected range (optional, helps detect replay/reorder)
+	// Verify the nonce carries the peer's direction prefix (a message reflected back
+	// to its sender is sealed under the same key) and is not older than expected
 	s.mu.Lock()
 	expectedNonce := s.buildRecvNonce()
-	// Allow some slack for out-of-order delivery (up to 1024 messages ahead)
 	nonceValue := binary.BigEndian.Uint64(nonce[4:])
 	expectedValue := binary.BigEndian.Uint64(expectedNonce[4:])
+	s.mu.Unlock()
+	if !bytes.Equal(nonce[:4], expectedNonce[:4]) {
+		return nil, fmt.Errorf("unexpected nonce direction prefix")
+	}
 	if nonceValue < expectedValue {
-		s.mu.Unlock()
 		return nil, fmt.Errorf("nonce too old: received %d, expected >= %d", nonceValue, expectedValue)
 	}
-	// Update expected nonce if this one is higher
-	if nonceValue >= s.recvNonce {
-		s.recvNonce = nonceValue + 1
+	if nonceValue == math.MaxUint64 {
+		return nil, fmt.Errorf("nonce counter exhausted")
 	}
-	s.mu.Unlock()
 
 	aead, err := chacha20poly1305.New(s.key[:])
 	if err != nil {
@@ -190,6 +193,16 @@ func (s *SessionKey) Decrypt(ciphertext []byte) ([]byte, error) {
 	if err != nil {
 		return nil, fmt.Errorf("decrypt: %w", err)
 	}
+
+	// Advance the expected counter only for authenticated messages, so that forged
+	// input can never change what is accepted afterwards
+	s.mu.Lock()
+	if nonceValue < s.recvNonce {
+		s.mu.Unlock()
+		return nil, fmt.Errorf("nonce too old: received %d, expected >= %d", nonceValue, s.recvNonce)
+	}
+	s.recvNonce = nonceValue + 1
+	s.mu.Unlock()
 
 	return plaintext, nil
 }
